@@ -2,7 +2,7 @@
 
 
 class H:
-    def __init__(self, name, tier="quick", timeout_q=480, timeout_t=2400, functions=(), bounds="", expect_fail=False):
+    def __init__(self, name, tier="quick", timeout_q=480, timeout_t=2400, functions=(), bounds="", expect_fail=False, fs=None):
         self.name = name
         self.tier = tier
         self.timeout_q = timeout_q
@@ -10,6 +10,7 @@ class H:
         self.functions = list(functions)
         self.bounds = bounds
         self.expect_fail = expect_fail
+        self.fs = fs  # per-harness --max-field-sensitivity-array-size (None = kpipe default)
 
 
 COMMON_ASSUMPTIONS = [
@@ -42,6 +43,10 @@ DEC = [
     H("dec2::union_oob", tier="thorough", functions=DEC_FUNCS, bounds="union[null,long,boolean], branch index 3 (out of range) x all 2-byte tails x cut"),
     H("dec2::record_", functions=DEC_FUNCS, bounds="record{a:long,b:boolean} x all byte strings of length <= 3"),
     H("dec2::duration_", functions=DEC_FUNCS, bounds="all byte strings of length <= 13"),
+    H("dec2::array_two_blocks_of_three", functions=DEC_FUNCS + ["decode::decode_seq_len", "util::safe_collection_len"], fs=164,
+      bounds="array<boolean>, two blocks of three items with positive counts [6 a b c 6 d e f 0], complete and cut inside the second block, all item bytes"),
+    H("dec2::array_two_negative_blocks_of_three", functions=DEC_FUNCS + ["decode::decode_seq_len", "util::safe_collection_len"], fs=164,
+      bounds="array<boolean>, two blocks of three items with negative counts and byte sizes [5 6 a b c 5 6 d e f 0], complete and cut, all item bytes"),
     H("dec2::ref_", functions=DEC_FUNCS + ["schema::Name::fully_qualified_name"], bounds="Ref -> enum{a,b,c} through a one-entry name table, and a dangling Ref; all byte strings of length <= 2"),
     H("dec::fixed_size_guard", functions=DEC_FUNCS, bounds="allocation limit 4, fixed size 0..=7, all byte strings of length <= 8"),
 ]
@@ -147,7 +152,7 @@ def _pick(lst, names, quick=()):
     for h in lst:
         if h.name in names:
             tier = h.tier if (h.name in quick and h.tier == "quick") else "thorough"
-            out.append(H(h.name, tier=tier, timeout_q=h.timeout_q, timeout_t=h.timeout_t, functions=h.functions, bounds=h.bounds, expect_fail=h.expect_fail))
+            out.append(H(h.name, tier=tier, timeout_q=h.timeout_q, timeout_t=h.timeout_t, functions=h.functions, bounds=h.bounds, expect_fail=h.expect_fail, fs=h.fs))
     return out
 
 
@@ -164,8 +169,8 @@ PROPS["C01"] = {
 }
 PROPS["C02"] = {
     "harnesses": _pick(ENC, _ALL_ENC, quick={"enc::int_", "enc::logical_kinds", "enc::enum_", "enc::scalars"})
-                 + _pick(DEC, _ALL_DEC, quick={"dec::int_full", "dec::logical_kinds", "dec::fixed_", "dec::enum_", "dec2::duration_"}),
-    "outside": ENCDEC_OUTSIDE + ". Multi-block / negative-count array and map layouts on the read side are not decided (same CBMC crash).",
+                 + _pick(DEC, _ALL_DEC, quick={"dec::int_full", "dec::logical_kinds", "dec::fixed_", "dec::enum_", "dec2::duration_", "dec2::array_two_blocks_of_three", "dec2::array_two_negative_blocks_of_three"}),
+    "outside": ENCDEC_OUTSIDE + ". Multi-block arrays (positive and negative counts with byte size) are decided for array<boolean> with two blocks of three items; maps and other item types are not.",
     "assumptions": ["the reference codec in harness/src/spec.rs is written from the Avro 1.11 specification text"],
 }
 PROPS["C06"] = {
@@ -187,8 +192,14 @@ PROPS["C05"] = {
 PROPS["C11"] = {
     "zregex": True,
     "harnesses": [
-        H("c11::union_rules_pairs", functions=["schema::union::UnionSchema::new", "schema::union::UnionSchemaBuilder::variant", "schema::union::UnionSchemaBuilder::build", "schema::union::schema_to_base_schemakind"],
-          bounds="all ordered pairs of branches from a 9-kind alphabet (null, boolean, int, long, string, date, fixed A, fixed B, union)"),
+        H("c11::union_rules_null", tier="quick", timeout_q=900, functions=["schema::union::UnionSchema::new", "schema::union::UnionSchemaBuilder::variant", "schema::union::UnionSchemaBuilder::build", "schema::union::schema_to_base_schemakind"], bounds="first branch null x 9 second branches (null, boolean, int, long, string, date, fixed A, fixed B, union)"),
+        H("c11::union_rules_int", tier="thorough", timeout_q=900, functions=["schema::union::UnionSchema::new", "schema::union::UnionSchemaBuilder::variant", "schema::union::UnionSchemaBuilder::build", "schema::union::schema_to_base_schemakind"], bounds="first branch int x 9 second branches (null, boolean, int, long, string, date, fixed A, fixed B, union)"),
+        H("c11::union_rules_long", tier="thorough", timeout_q=900, functions=["schema::union::UnionSchema::new", "schema::union::UnionSchemaBuilder::variant", "schema::union::UnionSchemaBuilder::build", "schema::union::schema_to_base_schemakind"], bounds="first branch long x 9 second branches (null, boolean, int, long, string, date, fixed A, fixed B, union)"),
+        H("c11::union_rules_string", tier="thorough", timeout_q=900, functions=["schema::union::UnionSchema::new", "schema::union::UnionSchemaBuilder::variant", "schema::union::UnionSchemaBuilder::build", "schema::union::schema_to_base_schemakind"], bounds="first branch string x 9 second branches (null, boolean, int, long, string, date, fixed A, fixed B, union)"),
+        H("c11::union_rules_date", tier="quick", timeout_q=900, functions=["schema::union::UnionSchema::new", "schema::union::UnionSchemaBuilder::variant", "schema::union::UnionSchemaBuilder::build", "schema::union::schema_to_base_schemakind"], bounds="first branch date x 9 second branches (null, boolean, int, long, string, date, fixed A, fixed B, union)"),
+        H("c11::union_rules_fixed_a", tier="quick", timeout_q=900, functions=["schema::union::UnionSchema::new", "schema::union::UnionSchemaBuilder::variant", "schema::union::UnionSchemaBuilder::build", "schema::union::schema_to_base_schemakind"], bounds="first branch fixed_a x 9 second branches (null, boolean, int, long, string, date, fixed A, fixed B, union)"),
+        H("c11::union_rules_fixed_b", tier="thorough", timeout_q=900, functions=["schema::union::UnionSchema::new", "schema::union::UnionSchemaBuilder::variant", "schema::union::UnionSchemaBuilder::build", "schema::union::schema_to_base_schemakind"], bounds="first branch fixed_b x 9 second branches (null, boolean, int, long, string, date, fixed A, fixed B, union)"),
+        H("c11::union_rules_union", tier="quick", timeout_q=900, functions=["schema::union::UnionSchema::new", "schema::union::UnionSchemaBuilder::variant", "schema::union::UnionSchemaBuilder::build", "schema::union::schema_to_base_schemakind"], bounds="first branch union x 9 second branches (null, boolean, int, long, string, date, fixed A, fixed B, union)"),
     ],
     "outside": "totality and exactness of Schema::parse_str on arbitrary text (JSON kinds at every position, duplicate keys, defaults, references): the parser runs serde_json, regex-lite and name tables keyed by symbolic strings and is not symbolically executable. Claimed are only: the four name grammars (z3, unbounded strings) and the union construction rules.",
     "assumptions": ["regex-lite implements the documented semantics of the translated regex subset"],
@@ -201,6 +212,7 @@ PROPS["C07"] = {
         H("c07::enum_schema", functions=C07_FUNCS, bounds="enum{a,b,c}: Enum(i,s) and String(s) forms incl. mismatching symbol, index out of range, unknown string"),
         H("c07::fixed_schema_", functions=C07_FUNCS, bounds="fixed(2): Fixed and Bytes forms, right and wrong lengths, all payload bytes"),
         H("c07::union_explicit", functions=C07_FUNCS, bounds="union[null,long]: explicit Union(i,v) forms (matching / mismatching / no such branch), bare Null; all i16 payloads"),
+        H("c07::union_null_not_first", functions=C07_FUNCS, bounds="union[long,null]: bare Null, Union(1,Null), Union(0,Long(n)), mismatching Union(0,Null); all i16 payloads"),
         H("c07::finding_bare_value_in_union", functions=C07_FUNCS, bounds="union[null,long], bare Long(n), all i16", expect_fail=True),
         H("c07::finding_float_for_double", functions=C07_FUNCS, bounds="schema double, Float(x) for all non-NaN f32", expect_fail=True),
     ],
